@@ -63,6 +63,8 @@ struct HllFam {
     (void)conv.get_estimate();
     (void)o.get_compact_serialization_bytes(); (void)o.get_updatable_serialization_bytes();
   }
+  static const bool SINGLE_INSTANCE = true;
+  static Arena* arena_of(const Obj& o) { return o.sketch_impl->getAllocator().arena; }   // private member: -fno-access-control
   static const bool HAS_MERGE_REF = false, HAS_MERGE_MOVE = false, HAS_RESET = true, HAS_ROUNDTRIP = true;
   static void merge_ref(Obj&, const Obj&, const Cfg&) {}
   static void merge_move(Obj&, Obj&&, const Cfg&) {}
@@ -97,9 +99,9 @@ struct HllUnionFam {
     if (how == 0) { feed(o, c, r); return; }
     Hll s(static_cast<uint8_t>(r.chance(0.6) ? (r.coin() ? c.lg_k1 : c.lg_k2) : r.range(4, 12)), pick_type(r), r.chance(0.1), A(scratch));
     feed(s, c, r);
-    if (how <= 2) { o.update(s); xcount("hll_union.merge_ref"); }
+    if (how <= 2) { { OperandWatch w(scratch, false, "union-update"); o.update(s); } xcount("hll_union.merge_ref"); }
     else {
-      o.update(std::move(s)); xcount("hll_union.merge_move");
+      { OperandWatch w(scratch, true, "union-update"); o.update(std::move(s)); } xcount("hll_union.merge_move");
       if (r.coin()) {   // the consumed sketch must remain assignable and usable
         Hll live(static_cast<uint8_t>(r.coin() ? c.lg_k1 : r.range(4, 12)), pick_type(r), r.chance(0.1), A(scratch));
         feed(live, c, r);
@@ -114,6 +116,7 @@ struct HllUnionFam {
     return s;
   }
   static void query(const Obj& o, const Cfg&, Rng& r) { Hll res = o.get_result(pick_type(r)); (void)res.get_estimate(); }
+  static Arena* arena_of(const Obj& o) { return o.gadget_.sketch_impl->getAllocator().arena; }   // private member: -fno-access-control
   static const bool HAS_MERGE_REF = false, HAS_MERGE_MOVE = false, HAS_RESET = true, HAS_ROUNDTRIP = false;
   static void merge_ref(Obj&, const Obj&, const Cfg&) {}
   static void merge_move(Obj&, Obj&&, const Cfg&) {}
